@@ -1,12 +1,50 @@
 """C13 — Validation, hole-filling and resampling preserve the data they are given.
 
-Model: lean/Ladybug/Model/Resample.lean (on Model/Cal.lean, Model/AP.lean); theorems:
-lean/Ladybug/Props/C13.lean (lemmas: Proofs/C13Lemmas.lean); driver: drv_c13.
+Model: lean/Ladybug/Model/Resample.lean (on Model/Cal.lean, Model/AP.lean) and the object state
+machine lean/Ladybug/Model/ResampleObj.lean; theorems: lean/Ladybug/Props/C13.lean (lemmas:
+Proofs/C13Lemmas|C13Interp|C13Contain|C13Holes|C13Obj.lean); driver: drv_c13.
 Tie: correspondence on the ops below (values are distinct ids where the code only moves them,
 rationals where it interpolates).
 
 The model, the theorems and the oracle describe the code WITH fixes/C13_*.patch applied (ten small
 repairs, see the patch headers); on a tree without them this check reports a VIOLATION.
+
+Stages (round 3 added the last three):
+  * fresh-object correspondence / oracle: one new collection, one call (vh vd vm vp cull holes interp agg rate)
+  * HISTORY correspondence (`hist`): the Lean object machine and the real hourly collection (continuous /
+    discontinuous x mutable / immutable) run the same op list on ONE object; the answer of every step and the
+    public state after every step are compared.  Ops: reads (values, period, flag; `datetimes`, which fills the
+    lazily computed slot of a continuous collection), validate, cull, in-place cull, hole filling, refinement,
+    `values` setter, item assignment, to_immutable / to_mutable / duplicate / to_discontinuous / dict round trip;
+    derived collections are adopted as the current object or not; refused calls (invalid / non-dividing
+    timesteps, wrong lengths, strings, indices out of range, immutables, missing methods, unvalidated data,
+    nothing on the grid) are caught and followed by further ops.
+  * HISTORY oracle (`history`, `key_history`): independent of the model, the harness keeps the state the user has
+    established (period, datetimes, values, flag) by its own bookkeeping; after every step the derived collection
+    must satisfy the clause of the statement that speaks about it for THAT state, and the current object must
+    show exactly that state (a refused op changed nothing; a derived collection did not touch its source).
+    `key_history`: the same for Daily / Monthly / MonthlyPerHour collections (validate, setters, copies, flag
+    through from_dict).
+  * PROCESS ORDER (`order`): the fixed corpus and a slice of every generated stream are evaluated in 2 (quick) /
+    4 (thorough) fresh interpreters, each in another order (rare classes first: leap, wrapping, sub-hourly,
+    refused first call; shuffled; reversed).  A case that fails only after others is reported with the shortest
+    order found by bisection; `replay('order', {'order': [...]})` re-runs it in a fresh interpreter.
+
+Consumers of every modelled mechanism (each is exercised by a correspondence op or an oracle clause):
+  _timestep_cull ............. cull_to_timestep, convert_to_culled_timestep (discontinuous, continuous, immutable
+                               twins: cull / history ops cull, convcull)
+  _xxrange ................... interpolate_holes (holes), interpolate_to_timestep (interp)
+  validated flag ............. written by validate_analysis_period, cull_to_timestep, from_dict, to_discontinuous,
+                               the continuous constructor, copied by duplicate / to_mutable / to_immutable / to_dict;
+                               read by interpolate_holes (history ops in every order; validation must not read it)
+  `_datetimes` slot (cont.) .. datetimes, _timestep_cull, to_discontinuous, written by convert_to_culled_timestep
+                               (history template `slot`)
+  data type time flags ....... cumulative / point_in_time -> divide / shift of interpolate_to_timestep (every
+                               data type of ladybug.datatype, cumulative=None/True/False)
+  VALIDTIMESTEPS ............. target check of both culls, timestep repair of hourly / mph validation, AnalysisPeriod
+  AnalysisPeriod.datetimes ... continuous datetimes, interpolate_holes grid
+  time_aggregated_factor ..... to_time_aggregated, to_time_rate_of_change (hourly, daily)
+  sort + period repair ....... validate_analysis_period of the four classes, fresh and after any history
 """
 import contextlib
 import io
@@ -17,7 +55,7 @@ from harness.core import err_name, run_oracle_cases
 
 PROP = 'C13'
 PROOF_MODULES = ['Ladybug.Props.C13']
-GREP_MODULES = ['Ladybug.Model.Resample', 'Ladybug.Proofs.C13Lemmas', 'Ladybug.Proofs.C13Interp',
+GREP_MODULES = ['Ladybug.Model.Resample', 'Ladybug.Model.ResampleObj', 'Ladybug.Proofs.C13Obj', 'Ladybug.Proofs.C13Lemmas', 'Ladybug.Proofs.C13Interp',
                 'Ladybug.Proofs.C13Contain', 'Ladybug.Proofs.C13Holes', 'Ladybug.Drv.C13',
                 'Ladybug.Model.AP', 'Ladybug.Model.Cal', 'Ladybug.Py', 'Ladybug.DrvCore']
 RULE = ('correspondence: header periods from a boundary product (one day / few days / months / annual / '
@@ -28,9 +66,14 @@ RULE = ('correspondence: header periods from a boundary product (one day / few d
         'trailing / interior / single / none on full-day periods incl. wrapping ones; refinement for every '
         'valid (source, target) timestep pair, every data type of ladybug.datatype (all cumulative types incl. '
         'the point-in-time ones) and cumulative=None/True/False; culling of sparse, dense and continuous '
-        'sources incl. (current, target) timestep pairs where the target does not divide the current one; a case is non-trivial '
+        'sources incl. (current, target) timestep pairs where the target does not divide the current one; '
+        'histories of 3-10 ops on one hourly collection (class x mutability x flag route x all 12 timesteps x leap / '
+        'wrapping; templates flag_then_validate, slot, refused_first, twice, set_then_derive, random) and on the keyed '
+        'classes; process-order runs in fresh interpreters; a case is non-trivial '
         'when the implementation returns a value; distinct = distinct (op, input)')
 TRUSTED_BASE = [
+    'hand-written object machine Model/ResampleObj.lean (hourly collections with the `_datetimes` slot, 13 ops, '
+    'refusals): tied to the code by the history correspondence only',
     'hand-written model Model/Resample.lean of datacollection.py validate_analysis_period (4 classes), '
     'interpolate_holes, _xxrange, interpolate_to_timestep, _timestep_cull/cull_to_timestep and of the '
     'factor arithmetic of _time_aggregated_collection/_time_rate_of_change_collection: tied to the code '
@@ -589,39 +632,53 @@ def _compare_num(ctx, op, cases, model_line, impl_fn):
         ctx.sample({'op': op, 'request': lines[0][:300], 'model': outs[0][:300]})
 
 
+def _tick(ctx, what):
+    import os
+    import sys
+    if os.environ.get('C13_TIMING'):
+        sys.stderr.write('C13 %6.1fs %s\n' % (ctx.elapsed(), what))
+
+
 def correspondence(ctx):
     # AnalysisPeriod prints 'Updated end_day ...' when it clips a day: keep the run's stdout clean
+    _tick(ctx, 'correspondence starts')
     with contextlib.redirect_stdout(io.StringIO()):
         _correspondence(ctx)
+    _tick(ctx, 'correspondence done')
 
 
 def _correspondence(ctx):
     rng = ctx.rng
     # fixed corpus first
     corpus = [c for op, c in _corpus() if op == 'validate_hourly']
-    cases = corpus + _gen_validate_hourly(ctx, ctx.n(1000, 12000))
+    cases = corpus + _gen_validate_hourly(ctx, ctx.n(800, 12000))
     _compare_exact(ctx, 'vh', cases,
                    lambda c: 'vh %s %s %d%s' % (_ap_line(c['ap']), _b(c['dl']), len(c['data']),
                                                  _line_items(c['data'])), _impl_vh)
+    _tick(ctx, 'vh done')
     for kind, op, cls in (('daily', 'vd', 'DailyCollection'), ('monthly', 'vm', 'MonthlyCollection')):
-        cases = _gen_keys(ctx, kind, ctx.n(700, 5000))
+        cases = _gen_keys(ctx, kind, ctx.n(500, 5000))
         _compare_exact(ctx, op, cases,
                        lambda c, op=op: '%s %s %d%s' % (op, _ap_line(c['ap']), len(c['data']),
                                                         _line_items(c['data'])), _impl_keys(cls))
-    cases = _gen_keys(ctx, 'mph', ctx.n(700, 5000))
+    _tick(ctx, 'vd vm done')
+    cases = _gen_keys(ctx, 'mph', ctx.n(500, 5000))
     _compare_exact(ctx, 'vp', cases,
                    lambda c: 'vp %s %d%s' % (_ap_line(c['ap']), len(c['data']),
                                              ''.join(' %d %d %d %d' % (k[0], k[1], k[2], v) for k, v in c['data'])),
                    _impl_keys('MonthlyPerHourCollection'))
+    _tick(ctx, 'vp done')
     cases = [c for op, c in _corpus() if op == 'cull'] + _gen_cull(ctx, ctx.n(600, 5000))
     _compare_exact(ctx, 'cull', cases,
                    lambda c: 'cull %s %d %d%s' % (_ap_line(c['ap']), c['ts'], len(c['data']),
                                                   _line_items(c['data'])), _impl_cull)
-    cases = [c for op, c in _corpus() if op == 'holes'] + _gen_holes(ctx, ctx.n(450, 3000))
+    _tick(ctx, 'cull done')
+    cases = [c for op, c in _corpus() if op == 'holes'] + _gen_holes(ctx, ctx.n(350, 3000))
     _compare_num(ctx, 'holes', cases,
                  lambda c: 'holes %s %s %d%s' % (_ap_line(c['ap']), _b(c['validated']), len(c['data']),
                                                  ''.join(' %d %s' % (m, _rat(v)) for m, v in c['data'])),
                  _impl_holes)
+    _tick(ctx, 'holes done')
     cases = [c for op, c in _corpus() if op == 'interp'] + _gen_interp(ctx, ctx.n(350, 2500))
     _compare_num(ctx, 'interp', cases,
                  lambda c: 'interp %s %d %s %s %s %d%s' % (
@@ -629,6 +686,10 @@ def _correspondence(ctx):
                      _b(_kind_flags(c['kind'])[0]), _b(_kind_flags(c['kind'])[1]), len(c['vals']),
                      ''.join(' ' + _rat(v) for v in c['vals'])), _impl_interp)
     _corr_factor(ctx, rng)
+    _tick(ctx, 'fresh-object correspondence done')
+    # histories on one object: the Lean object machine step by step against the real object
+    cases = [c for op, c in _corpus() if op == 'history'] + _gen_history(ctx, ctx.n(300, 3000))
+    _compare_hist(ctx, cases)
 
 
 def _corr_factor(ctx, rng):
@@ -729,6 +790,13 @@ def _check_validate_hourly(inp):
                 'sig': dict(sig, fail='raise')}
     if dup:
         return {'required': 'duplicate datetimes rejected', 'observed': 'accepted', 'sig': dict(sig, fail='dup')}
+    return _pred_validated(v, dl, data, sig)
+
+
+def _pred_validated(v, dl, data, sig, header=('C', {'k': 'v'}, 'Temperature')):
+    """The statement about a validated hourly collection `v` obtained from the pairs `data`
+    ((moy, value); DateTime leap flag `dl`): same pairs, flagged, sorted from the period start,
+    every datetime a step of the output period, header otherwise kept."""
     nap = v.header.analysis_period
     got = [(d.moy, bool(d.leap_year), x) for d, x in zip(v.datetimes, v.values)]
     if sorted(got) != sorted((m, bool(dl), x) for m, x in data) or len(v.values) != len(v.datetimes):
@@ -750,7 +818,7 @@ def _check_validate_hourly(inp):
                 'observed': '%s does not contain %s' % (nap, bad[:6]),
                 'sig': dict(sig, fail='contain', cause='+'.join(causes))}
     hd = v.header
-    if hd.unit != 'C' or hd.metadata != {'k': 'v'} or hd.data_type.name != 'Temperature':
+    if header and (hd.unit != header[0] or hd.metadata != header[1] or hd.data_type.name != header[2]):
         return {'required': 'header data type/unit/metadata kept', 'observed': str(hd), 'sig': dict(sig, fail='header')}
     return None
 
@@ -776,9 +844,15 @@ def _check_validate_keys(op, inp):
                 'sig': dict(sig, fail='raise')}
     if dup:
         return {'required': 'duplicates rejected', 'observed': 'accepted', 'sig': dict(sig, fail='dup')}
+    return _pred_validated_keys(op, v, list(zip(keys, [x for _, x in data])), sig)
+
+
+def _pred_validated_keys(op, v, pairs, sig):
+    """The statement about a validated Daily / Monthly / MonthlyPerHour collection `v` obtained from
+    the (key, value) pairs `pairs`."""
     nap = v.header.analysis_period
     got = list(zip(v.datetimes, v.values))
-    if sorted(got) != sorted(zip(keys, [x for _, x in data])):
+    if sorted(got) != sorted(pairs):
         return {'required': 'same (key, value) pairs', 'observed': str(got)[:300], 'sig': dict(sig, fail='pairs')}
     leap = bool(nap.is_leap_year)
     nd = 366 if leap else 365
@@ -851,6 +925,14 @@ def _check_holes(inp):
     except Exception as e:
         return {'required': 'continuous collection', 'observed': '%s: %s' % (type(e).__name__, e),
                 'sig': dict(sig, fail='raise')}
+    return _pred_holes(r, ap, data, sig)
+
+
+def _pred_holes(r, ap, data, sig):
+    """The statement about the hole-filled collection `r` of validated pairs `data` under the
+    whole-day period `ap`: one value per step, source values kept, the rest between neighbours."""
+    steps = _full_day_steps(ap)
+    pos = {m: i for i, m in enumerate(steps)}
     out = list(r.values)
     if len(out) != len(steps) or _ap_fields(r.header.analysis_period) != ap:
         return {'required': 'one value per step (%d)' % len(steps), 'observed': len(out), 'sig': dict(sig, fail='length')}
@@ -897,6 +979,13 @@ def _check_interp(inp):
         new = coll.interpolate_to_timestep(ts, cum)
     except Exception as e:
         return {'required': 'refined collection', 'observed': '%s: %s' % (type(e).__name__, e), 'sig': dict(sig, fail='raise')}
+    return _pred_interp(new, ap, ts, vals, as_cum, pit, sig)
+
+
+def _pred_interp(new, ap, ts, vals, as_cum, pit, sig):
+    """The statement about the refinement `new` of the continuous values `vals` (period `ap`) to
+    timestep `ts`: totals of cumulative data, point-in-time values at the original steps, means."""
+    r = ts // ap[6]
     out = list(new.values)
     if len(out) != len(vals) * r or new.header.analysis_period.timestep != ts:
         return {'required': '%d values at timestep %d' % (len(vals) * r, ts), 'observed': len(out), 'sig': dict(sig, fail='length')}
@@ -944,6 +1033,913 @@ def _check_cull(inp):
     return None
 
 
+# ---------------------------------------------------------------------------------------------
+# histories on ONE object (round 3): executor on the real classes, shared by the history
+# correspondence (vs. the Lean object machine Model/ResampleObj.lean) and the history oracle
+
+
+def _hist_build(inp):
+    """The starting object of a history, built through the public constructors only."""
+    from ladybug.datacollection import HourlyDiscontinuousCollection, HourlyContinuousCollection
+    ap, kind = inp['ap'], inp.get('kind', 'point')
+    vals = [float(v) for _, v in inp['data']]
+    if inp['cls'] == 'cont':
+        coll = HourlyContinuousCollection(_header(ap, kind), vals)
+    else:
+        coll = HourlyDiscontinuousCollection(_header(ap, kind), vals, [_mk_dt(ap[7], m) for m, _ in inp['data']])
+        if inp.get('flag'):
+            # a dictionary that claims to be validated (public route to the flag)
+            d = coll.to_dict()
+            d['validated_a_period'] = True
+            coll = HourlyDiscontinuousCollection.from_dict(d)
+    if inp.get('imm'):
+        coll = coll.to_immutable()
+    return coll
+
+
+CUM_ARG = {'N': None, '0': False, '1': True, 'X': 1}
+
+
+def _hist_apply(coll, op):
+    """Run one op of a history on the real object.  -> (status, derived collection or None);
+    status 'done' | 'res' | 'err:<class>'."""
+    name = op[0]
+    try:
+        if name == 'read':
+            coll.values, coll.header.analysis_period, coll.validated_a_period
+            if op[1]:
+                coll.datetimes
+            return 'done', None
+        if name == 'validate':
+            return 'res', coll.validate_analysis_period()
+        if name == 'cull':
+            return 'res', coll.cull_to_timestep(op[1])
+        if name == 'convcull':
+            coll.convert_to_culled_timestep(op[1])
+            return 'done', None
+        if name == 'holes':
+            return 'res', coll.interpolate_holes()
+        if name == 'interp':
+            return 'res', coll.interpolate_to_timestep(op[1], CUM_ARG[op[2]])
+        if name == 'setvalues':
+            coll.values = op[1] if isinstance(op[1], str) else [float(x) for x in op[1]]
+            return 'done', None
+        if name == 'setitem':
+            coll[op[1]] = float(op[2])
+            return 'done', None
+        if name == 'dict':
+            return 'res', type(coll).from_dict(coll.to_dict())
+        if name in ('to_immutable', 'to_mutable', 'duplicate', 'to_discontinuous'):
+            return 'res', getattr(coll, name)()
+    except Exception as e:
+        return 'err:' + err_name(e), None
+    raise ValueError('unknown history op %r' % (op,))
+
+
+ADOPTING = ('to_immutable', 'to_mutable', 'duplicate', 'to_discontinuous', 'dict')
+
+
+def _adopts(op):
+    return op[0] in ADOPTING or (op[0] in ('validate', 'cull', 'holes', 'interp') and bool(op[-1]))
+
+
+def _hist_obs(coll, read_dt):
+    """Public state of a collection; `datetimes` is read only on request (the read fills the lazily
+    computed slot of a continuous collection, which is itself part of the history)."""
+    from ladybug.datacollection import HourlyContinuousCollection
+    o = {'cont': isinstance(coll, HourlyContinuousCollection), 'imm': not coll.is_mutable,
+         'ap': _ap_fields(coll.header.analysis_period), 'validated': bool(coll.validated_a_period),
+         'vals': list(coll.values), 'moys': None}
+    if read_dt:
+        dts = list(coll.datetimes)
+        o['moys'] = [d.moy for d in dts]
+        o['dleap'] = sorted(set(bool(d.leap_year) for d in dts))
+    return o
+
+
+def _hist_exec(inp):
+    """-> list of (status, result obs or None, current obs) per step, or 'err:<class>' when the
+    starting object cannot be built."""
+    try:
+        cur = _hist_build(inp)
+    except Exception as e:
+        return 'err:' + err_name(e)
+    ops = inp['ops']
+    trace = []
+    for k, op in enumerate(ops):
+        status, res = _hist_apply(cur, op)
+        robs = None
+        if status == 'res':
+            adopt = _adopts(op)
+            robs = _hist_obs(res, read_dt=not adopt)
+            if adopt:
+                cur = res
+        read_dt = (op[0] == 'read' and bool(op[1])) or k == len(ops) - 1
+        trace.append((status, robs, _hist_obs(cur, read_dt)))
+    return trace
+
+
+def _op_tokens(op):
+    name = op[0]
+    if name == 'read':
+        return 'read %s' % _b(op[1])
+    if name in ('validate', 'holes'):
+        return '%s %s' % (name, _b(op[1]))
+    if name == 'cull':
+        return 'cull %d %s' % (op[1], _b(op[2]))
+    if name == 'convcull':
+        return 'convcull %d' % op[1]
+    if name == 'interp':
+        return 'interp %d %s %s' % (op[1], op[2], _b(op[3]))
+    if name == 'setvalues':
+        if isinstance(op[1], str):
+            return 'setvalues S'
+        return 'setvalues %d%s' % (len(op[1]), ''.join(' ' + _rat(v) for v in op[1]))
+    if name == 'setitem':
+        return 'setitem %d %s' % (op[1], _rat(op[2]))
+    return name
+
+
+def _hist_line(c):
+    nc, pit = _kind_flags(c.get('kind', 'point'))
+    return 'hist %s %s %s %s %s %s %d%s %s' % (
+        _b(c['cls'] == 'cont'), _b(c.get('imm')), _ap_line(c['ap']), _b(c.get('flag')), _b(nc), _b(pit),
+        len(c['data']), ''.join(' %d %s' % (m, _rat(v)) for m, v in c['data']),
+        ' '.join(_op_tokens(op) for op in c['ops']))
+
+
+def _parse_obs(toks, k):
+    """<cont> <imm> <ap 8> <validated> <n> rat*n <k> moy*k  ->  (obs, next index)."""
+    cont, imm = toks[k] == '1', toks[k + 1] == '1'
+    ap = [int(t) for t in toks[k + 2:k + 9]] + [toks[k + 9] == '1']
+    validated = toks[k + 10] == '1'
+    n = int(toks[k + 11])
+    vals = [Fraction(t) for t in toks[k + 12:k + 12 + n]]
+    k2 = k + 12 + n
+    m = int(toks[k2])
+    moys = [int(t) for t in toks[k2 + 1:k2 + 1 + m]]
+    return {'cont': cont, 'imm': imm, 'ap': ap, 'validated': validated, 'vals': vals, 'moys': moys}, k2 + 1 + m
+
+
+def _parse_hist(mo):
+    """Model answer of a `hist` request -> list of (status, result obs or None, current obs)."""
+    out = []
+    for part in mo[3:].split(' | '):
+        a, b = part.split(' ; ')
+        at = a.split(' ')
+        robs = None
+        status = at[0]
+        if status == 'res':
+            robs, _ = _parse_obs(at, 1)
+        cobs, _ = _parse_obs(b.split(' '), 0)
+        out.append((status, robs, cobs))
+    return out
+
+
+def _obs_diff(model, impl):
+    """First field in which the model's and the implementation's public state differ (the
+    datetimes only when the implementation's were read)."""
+    if impl is None or model is None:
+        return None if impl is model else 'result'
+    for f in ('cont', 'imm', 'ap', 'validated'):
+        if model[f] != impl[f]:
+            return f
+    if len(model['vals']) != len(impl['vals']) or \
+            not all(_close(float(a), b) for a, b in zip(model['vals'], impl['vals'])):
+        return 'values'
+    if impl['moys'] is not None:
+        if model['moys'] != impl['moys']:
+            return 'datetimes'
+        if impl['dleap'] not in ([], [bool(model['ap'][7])]):
+            return 'datetime_leap'
+    return None
+
+
+def _compare_hist(ctx, cases):
+    """History correspondence: the Lean object machine and the real object run the same op list; the
+    answer of every step and the public state after every step are compared."""
+    lines = [_hist_line(c) for c in cases]
+    outs = ctx.driver().run(lines)
+    for c, line, mo in zip(cases, lines, outs):
+        trace = _hist_exec(c)
+        ctx.compared += 1
+        ctx.count('op:hist')
+        ctx.count('hist:init:%s%s%s' % (c['cls'], ':imm' if c.get('imm') else '', ':flag' if c.get('flag') else ''))
+        ctx.count('hist:ts:%d' % c['ap'][6])
+        ctx.count('hist:template:%s' % c.get('tag', '?'))
+        ctx.case(('hist', line), nontrivial=not isinstance(trace, str))
+        if isinstance(trace, str) or not mo.startswith('ok '):
+            if mo != trace:
+                ctx.disagree('hist', {'case': c, 'line': line[:600]}, mo[:300], str(trace)[:300])
+            continue
+        mt = _parse_hist(mo)
+        bad = None
+        if len(mt) != len(trace):
+            bad = ('length', len(mt), len(trace))
+        for k, ((ms, mr, mc), (st, ro, co)) in enumerate(zip(mt, trace)):
+            if bad:
+                break
+            op = c['ops'][k]
+            ctx.count('hist:op:%s' % op[0])
+            if st.startswith('err:'):
+                ctx.count('hist:refused:%s' % op[0])
+            ms_ = ms if ms.startswith('err:') else ('res' if ms == 'res' else 'done')
+            if ms_ != st:
+                bad = (k, op, 'answer', ms, st)
+            else:
+                d = _obs_diff(mr, ro) if st == 'res' else None
+                if d:
+                    bad = (k, op, 'result.' + d, str(mr)[:200], str(ro)[:200])
+                else:
+                    d = _obs_diff(mc, co)
+                    if d:
+                        bad = (k, op, 'state.' + d, str(mc)[:200], str(co)[:200])
+        if bad:
+            ctx.disagree('hist', {'case': c, 'line': line[:600], 'step': str(bad[:3])}, str(bad[3])[:300],
+                         str(bad[4])[:300] if len(bad) > 4 else '')
+    if cases:
+        ctx.sample({'op': 'hist', 'request': lines[0][:300], 'model': outs[0][:300]})
+
+
+# --- history oracle: the statement of C13 along a history, independent of the model -------------
+
+
+def _spec_coherent(P):
+    """A continuous collection whose datetimes are the steps of its whole-day period, one value each."""
+    return (P['ap'][2], P['ap'][5]) == (0, 23) and len(P['vals']) == len(P['moys']) and \
+        P['moys'] == _full_day_steps(P['ap'])
+
+
+def _spec_holes_ready(P):
+    """Validated pairs under a whole-day period: on its steps, in period order, flag set."""
+    if not P['validated'] or (P['ap'][2], P['ap'][5]) != (0, 23) or not P['moys'] or \
+            len(P['vals']) != len(P['moys']):
+        return False
+    pos = {m: i for i, m in enumerate(_full_day_steps(P['ap']))}
+    idx = [pos.get(m) for m in P['moys']]
+    return None not in idx and all(a < b for a, b in zip(idx, idx[1:]))
+
+
+def _spec_diff(cur, P, read_dt):
+    """What of the public state of `cur` differs from the state the user has established."""
+    try:
+        o = _hist_obs(cur, read_dt)
+    except Exception as e:
+        return 'read raises %s: %s' % (type(e).__name__, e), None
+    if o['ap'] != P['ap']:
+        return 'period', o['ap']
+    if len(o['vals']) != len(P['vals']) or not all(_close(a, b) for a, b in zip(P['vals'], o['vals'])):
+        return 'values', o['vals'][:12]
+    if o['validated'] != P['validated']:
+        return 'flag', o['validated']
+    if read_dt and o['moys'] != P['moys']:
+        return 'datetimes', o['moys'][:12]
+    if read_dt and o['dleap'] not in ([], [bool(P['ap'][7])]):
+        return 'datetime_leap', o['dleap']
+    return None
+
+
+def _known_validate(sig):
+    """Is this failure of the validation predicate one of the recorded findings?"""
+    from harness import core
+    s = dict(sig, op='validate_hourly')
+    return any(core.matches(s, k) for k in core.load_known(PROP))
+
+
+def _check_history(inp):
+    """One history on one object.  After every step: (1) a derived collection satisfies the clause
+    of the statement that speaks about it, for the pairs the user has established so far; (2) the
+    current object shows exactly the established state – in particular an op that raised has
+    changed nothing, and a derived collection has not touched its source."""
+    cls, ap = inp['cls'], inp['ap']
+    kind = inp.get('kind', 'point')
+    native_cum, pit = _kind_flags(kind)
+    t = _type_of(kind)()
+    hdr = (t.units[0], {'k': 'v'}, t.name)
+    P = {'cont': cls == 'cont', 'ap': list(ap), 'moys': [m for m, _ in inp['data']],
+         'vals': [float(v) for _, v in inp['data']], 'validated': cls == 'cont' or bool(inp.get('flag'))}
+    sig0 = {'cls': cls, 'imm': bool(inp.get('imm')), 'flag': bool(inp.get('flag'))}
+    try:
+        cur = _hist_build(inp)
+    except Exception as e:
+        return {'required': 'collection is built', 'observed': '%s: %s' % (type(e).__name__, e),
+                'sig': dict(sig0, fail='build')}
+    d = _spec_diff(cur, P, True)
+    if d:
+        return {'required': 'new collection shows the data it was given', 'observed': '%s: %s' % d,
+                'sig': dict(sig0, fail='build:' + d[0])}
+    prev = 'init'
+    ops = inp['ops']
+    for k, op in enumerate(ops):
+        name = op[0]
+        status, res = _hist_apply(cur, op)
+        refused = status.startswith('err:')
+        sig = dict(sig0, step=name, prev=prev, refused=refused, cont=P['cont'])
+        where = 'step %d %s after %s' % (k, op if name != 'setvalues' else ['setvalues', '...'], [o[0] for o in ops[:k]])
+
+        def fail(what, required, observed):
+            return {'required': '%s: %s' % (where, required), 'observed': str(observed)[:300],
+                    'sig': dict(sig, fail=what)}
+        pairs = list(zip(P['moys'], P['vals']))
+        coherent = _spec_coherent(P) if P['cont'] else (len(P['moys']) == len(P['vals']) and len(pairs) > 0)
+        newP = None
+        if name == 'validate':
+            if P['cont']:
+                if refused and coherent:
+                    return fail('raise', 'validated copy', status)
+                if not refused:
+                    got = [(dt.moy, x) for dt, x in zip(res.datetimes, res.values)]
+                    if got != pairs or _ap_fields(res.header.analysis_period) != P['ap']:
+                        return fail('pairs', 'the same pairs under the same period', got[:12])
+                    newP = dict(P)
+            elif pairs:
+                dup = len(set(P['moys'])) != len(P['moys'])
+                if refused and not dup:
+                    return fail('raise', 'validated collection', status)
+                if not refused:
+                    if dup:
+                        return fail('dup', 'duplicate datetimes rejected', 'accepted')
+                    vsig = dict(sig, header=_header_kind(P['ap']), n='one' if len(pairs) == 1 else 'many', leap_mix=False,
+                                window='full' if (P['ap'][2], P['ap'][5]) == (0, 23) else 'partial')
+                    f = _pred_validated(res, P['ap'][7], pairs, vsig, header=hdr)
+                    if f and not _known_validate(f['sig']):
+                        return fail('validate:' + f['sig'].get('fail', '?'), f['required'], f['observed'])
+                    newP = {'cont': False, 'ap': _ap_fields(res.header.analysis_period),
+                            'moys': [dt.moy for dt in res.datetimes], 'vals': list(res.values), 'validated': True}
+        elif name in ('cull', 'convcull'):
+            ts = op[1]
+            if ts in VALID_TS and len(P['moys']) == len(P['vals']):
+                want = [(m, x) for m, x in pairs if m % (60 // ts) == 0]
+                mutable_ok = name == 'cull' or not inp_imm(cur)
+                if refused and want and mutable_ok:
+                    return fail('raise', 'culled collection', status)
+                if not refused:
+                    v = res if name == 'cull' else cur
+                    got = [(dt.moy, x) for dt, x in zip(v.datetimes, v.values)]
+                    na = _ap_fields(v.header.analysis_period)
+                    if got != want or len(v.values) != len(v.datetimes):
+                        return fail('kept', 'exactly the steps on the %d-minute grid, in order' % (60 // ts), got[:12])
+                    if na != P['ap'][:6] + [ts, P['ap'][7]]:
+                        return fail('header', 'header timestep %d, period otherwise unchanged' % ts, na)
+                    newP = {'cont': False if name == 'cull' else P['cont'], 'ap': na,
+                            'moys': [m for m, _ in want], 'vals': [x for _, x in want],
+                            'validated': True if name == 'cull' else P['validated']}
+            elif not refused and name == 'convcull' and ts not in VALID_TS:
+                return fail('accepted', 'an invalid timestep is refused', _ap_fields(cur.header.analysis_period))
+            elif not refused and name == 'convcull':
+                # a continuous collection whose values no longer pair up with its datetimes (in-place cull to a
+                # non-dividing timestep, then new values): nothing is claimed; go on from what it shows now
+                o = _hist_obs(cur, True)
+                newP = {'cont': o['cont'], 'ap': o['ap'], 'moys': o['moys'], 'vals': o['vals'],
+                        'validated': o['validated']}
+        elif name == 'holes':
+            if P['cont']:
+                if not refused:
+                    got = [(dt.moy, x) for dt, x in zip(res.datetimes, res.values)]
+                    if got != pairs or _ap_fields(res.header.analysis_period) != P['ap']:
+                        return fail('pairs', 'the same pairs under the same period', got[:12])
+                    newP = dict(P)
+                elif coherent:
+                    return fail('raise', 'copy of the continuous collection', status)
+            elif _spec_holes_ready(P):
+                if refused:
+                    return fail('raise', 'continuous collection', status)
+                f = _pred_holes(res, P['ap'], pairs, sig)
+                if f:
+                    return fail('holes:' + f['sig'].get('fail', '?'), f['required'], f['observed'])
+                newP = {'cont': True, 'ap': list(P['ap']), 'moys': _full_day_steps(P['ap']),
+                        'vals': list(res.values), 'validated': True}
+            elif not refused:
+                # not a validated collection: nothing is claimed about the values
+                newP = {'cont': True, 'ap': _ap_fields(res.header.analysis_period),
+                        'moys': [dt.moy for dt in res.datetimes], 'vals': list(res.values), 'validated': True}
+        elif name == 'interp':
+            ts, cum = op[1], CUM_ARG[op[2]]
+            legal = P['cont'] and coherent and ts in VALID_TS and ts % P['ap'][6] == 0 and op[2] != 'X'
+            if legal:
+                if refused:
+                    return fail('raise', 'refined collection', status)
+                as_cum = native_cum if cum is None else bool(cum)
+                f = _pred_interp(res, P['ap'], ts, P['vals'], as_cum, pit, sig)
+                if f:
+                    return fail('interp:' + f['sig'].get('fail', '?'), f['required'], f['observed'])
+                nap = P['ap'][:6] + [ts, P['ap'][7]]
+                if _ap_fields(res.header.analysis_period) != nap:
+                    return fail('header', 'period with timestep %d' % ts, _ap_fields(res.header.analysis_period))
+                newP = {'cont': True, 'ap': nap, 'moys': _full_day_steps(nap), 'vals': list(res.values),
+                        'validated': True}
+            elif not refused:
+                newP = {'cont': True, 'ap': _ap_fields(res.header.analysis_period),
+                        'moys': [dt.moy for dt in res.datetimes], 'vals': list(res.values), 'validated': True}
+        elif name == 'setvalues':
+            if not refused:
+                if isinstance(op[1], str) or (not P['cont'] and len(op[1]) != len(P['moys'])) or not op[1]:
+                    return fail('accepted', 'values that do not fit the datetimes are refused', len(op[1]))
+                P = dict(P, vals=[float(x) for x in op[1]])
+            elif not inp_imm(cur) and not isinstance(op[1], str) and op[1] and \
+                    len(op[1]) == (len(_full_day_steps(P['ap'])) if P['cont'] and (P['ap'][2], P['ap'][5]) == (0, 23)
+                                   else len(P['moys'])):
+                return fail('raise', 'values accepted', status)
+        elif name == 'setitem':
+            n = len(P['vals'])
+            if not refused:
+                if not -n <= op[1] < n:
+                    return fail('accepted', 'index outside the collection is refused', op[1])
+                vals = list(P['vals'])
+                vals[op[1]] = float(op[2])
+                P = dict(P, vals=vals)
+            elif -n <= op[1] < n and not inp_imm(cur):
+                return fail('raise', 'value assigned', status)
+        elif name in ADOPTING:
+            legal = coherent and (name != 'to_discontinuous' or P['cont'])
+            if refused and legal:
+                return fail('raise', 'copy of the collection', status)
+            if not refused:
+                newP = dict(P)
+                if name == 'to_discontinuous':
+                    newP['cont'], newP['validated'] = False, True
+        # adoption
+        if not refused and status == 'res' and _adopts(op):
+            cur = res
+            if newP is None:     # nothing was claimed about the result: take it as the new established state
+                try:
+                    o = _hist_obs(res, True)
+                    newP = {'cont': o['cont'], 'ap': o['ap'], 'moys': o['moys'], 'vals': o['vals'],
+                            'validated': o['validated']}
+                except Exception as e:
+                    return fail('read', 'derived collection can be read', '%s: %s' % (type(e).__name__, e))
+            P = newP
+        elif not refused and name == 'convcull' and newP is not None:
+            P = newP
+        read_dt = (name == 'read' and bool(op[1])) or k == len(ops) - 1
+        d = _spec_diff(cur, P, read_dt)
+        if d:
+            return fail('state:' + d[0],
+                        'the collection shows the state established so far (%s)' % (
+                            'the refused op changed nothing' if refused else 'period %s, %d values' % (P['ap'], len(P['vals']))),
+                        '%s: %s' % d)
+        prev = name
+    return None
+
+
+def inp_imm(coll):
+    try:
+        return not coll.is_mutable
+    except Exception:
+        return False
+
+
+# --- history generator -------------------------------------------------------------------------
+
+BAD_TS = [0, 7, 8, 24, 120]
+
+
+def _gen_history(ctx, count):
+    """Histories on one hourly collection.  Strata (all counted): class x mutability x flag route;
+    every valid timestep; leap / wrapping periods; templates `flag_then_validate` (an op that sets
+    the validated flag, then validation), `slot` (datetimes read before / after an in-place cull of
+    a continuous collection), `refused_first`, `twice` (the same and different questions asked of one
+    object), `set_then_derive`, `random`."""
+    rng = ctx.rng
+    out = []
+    for _ in range(count):
+        cls = 'cont' if rng.random() < 0.45 else 'disc'
+        ap = _gen_period(rng, full_day=(cls == 'cont' or rng.random() < 0.8), short=True)
+        if cls == 'cont' or rng.random() < 0.5:
+            ap[6] = rng.choice(VALID_TS if rng.random() < 0.5 else [1, 2, 3, 4, 6])
+        if (ap[2], ap[5]) == (0, 23):
+            if len(_full_day_steps(ap)) > 300:
+                ap[3], ap[4] = ap[0], ap[1]
+            if len(_full_day_steps(ap)) > 500:
+                ap[6] = rng.choice([4, 6, 10, 12])
+        steps = _full_day_steps(ap) if (ap[2], ap[5]) == (0, 23) else None
+        flag = False
+        if cls == 'cont':
+            shape = 'cont'
+            moys = steps
+        else:
+            shape = rng.choice(['sparse', 'sparse', 'holey', 'holey', 'dense']) if steps else 'sparse'
+            if shape == 'sparse':
+                moys = _gen_local_moys(rng, ap, rng.choice([1, 2, 3, 5, 10, 30]))
+                flag = rng.random() < 0.3
+            elif shape == 'holey':
+                p = rng.choice([0.3, 0.6, 0.9])
+                keep = [i for i in range(len(steps)) if rng.random() < p] or [rng.randrange(len(steps))]
+                moys = [steps[i] for i in keep]
+                flag = rng.random() < 0.5
+                if rng.random() < 0.3:
+                    rng.shuffle(moys)
+            else:
+                moys = list(steps)
+                flag = rng.random() < 0.5
+        half = rng.random() < 0.25
+        data = [[m, (i + 1) * rng.choice([1, 1, 3]) + (0.5 if half else 0)] for i, m in enumerate(moys)]
+        if rng.random() < 0.15:
+            data = [[m, 0] for m, _ in data]                       # all-zero values
+        kind = rng.choice(['point', 'cumulative', 'averaged', 'point_cumulative'])
+        imm = rng.random() < 0.25
+        c = {'cls': cls, 'imm': imm, 'ap': ap, 'flag': flag, 'kind': kind, 'data': data}
+        c['ops'], c['tag'] = _gen_ops(rng, c)
+        out.append(c)
+    return out
+
+
+def _gen_local_moys(rng, ap, n):
+    """Unsorted subset of the annual grid in and closely around the header period (at most a day
+    outside a non-wrapping one), so that the validated period stays small enough for hole filling."""
+    leap = ap[7]
+    ny = _ny(leap)
+    st = (_md_to_doy(leap, ap[0], ap[1]) - 1) * 1440
+    en = (_md_to_doy(leap, ap[3], ap[4]) - 1) * 1440 + 1440
+    wraps = en <= st
+    span = (en - st) % ny or ny
+    grid = 60 // ap[6] if rng.random() < 0.6 else None
+    moys = set()
+    for _ in range(n):
+        r = rng.random()
+        if r < 0.7 or wraps:
+            m = (st + rng.randrange(span)) % ny
+        elif r < 0.85:
+            m = max(0, st - rng.randrange(1, 1441))
+        else:
+            m = min(ny - 1, en + rng.randrange(0, 1440))
+        if rng.random() < 0.4:
+            h = rng.choice([0, 1, 23, 22, ap[2], ap[5], (ap[5] + 1) % 24, (ap[2] - 1) % 24])
+            m = m // 1440 * 1440 + h * 60 + m % 60
+        g = grid if grid else 60 // rng.choice([1, 2, 3, 4, 6])
+        moys.add(m - m % g)
+    moys = list(moys)
+    rng.shuffle(moys)
+    return moys
+
+
+def _gen_ops(rng, c):
+    cls, ap, n = c['cls'], c['ap'], len(c['data'])
+    ts0 = ap[6]
+    cont = cls == 'cont'
+    coarser = [t for t in VALID_TS if t < ts0] or [1]
+    finer = [t for t in VALID_TS if t % ts0 == 0 and t * n <= 3000] or [ts0]
+
+    def a_ts(valid=0.85):
+        if rng.random() > valid:
+            return rng.choice(BAD_TS)
+        r = rng.random()
+        if r < 0.5:
+            return rng.choice(coarser)
+        if r < 0.7:
+            return ts0
+        return rng.choice(VALID_TS)
+
+    def a_vals(k):
+        base = rng.randrange(100, 200)
+        return [base + i * rng.choice([1, 2]) for i in range(k)]
+
+    def rand_op():
+        r = rng.random()
+        if r < 0.14:
+            return ['read', rng.random() < 0.6]
+        if r < 0.30:
+            return ['validate', rng.random() < 0.5]
+        if r < 0.42:
+            return ['cull', a_ts(), rng.random() < 0.4]
+        if r < 0.54:
+            return ['convcull', a_ts()]
+        if r < 0.62:
+            return ['holes', rng.random() < 0.4]
+        if r < 0.72:
+            t = rng.choice(finer) if rng.random() < 0.75 else rng.choice([0, 7, ts0 + 1, 8 * ts0, 24])
+            return ['interp', t, rng.choice(['N', 'N', '0', '1', 'X'] if rng.random() < 0.3 else ['N', '0', '1']),
+                    rng.random() < 0.3]
+        if r < 0.82:
+            q = rng.random()
+            if q < 0.55:
+                return ['setvalues', a_vals(n)]
+            if q < 0.7:
+                return ['setvalues', a_vals(max(0, n + rng.choice([-1, 1, -n])))]
+            if q < 0.8:
+                return ['setvalues', 'abc']
+            return ['setvalues', a_vals(rng.choice([1, 2, 24, 48]))]
+        if r < 0.88:
+            i = rng.choice([0, -1, n - 1, -n, n, -n - 1, rng.randrange(max(1, n))])
+            return ['setitem', i, rng.randrange(500, 600)]
+        return [rng.choice(['to_immutable', 'to_mutable', 'duplicate', 'to_discontinuous', 'dict'])]
+
+    t = rng.random()
+    if t < 0.18:
+        tag = 'flag_then_validate'
+        first = rng.choice([['cull', rng.choice(coarser + [ts0]), True], ['dict'], ['to_immutable'], ['duplicate'],
+                            ['to_discontinuous'], ['convcull', rng.choice(coarser + [ts0])]])
+        ops = [first, ['validate', rng.random() < 0.7], ['read', True], ['holes', False]]
+    elif t < 0.34:
+        tag = 'slot'
+        ops = ([['read', True]] if rng.random() < 0.6 else []) + \
+            [['convcull', rng.choice(coarser + [ts0] + VALID_TS)], ['read', True], rand_op(), ['read', True]]
+    elif t < 0.5:
+        tag = 'refused_first'
+        bad = rng.choice([['convcull', rng.choice(BAD_TS)], ['cull', rng.choice(BAD_TS), True],
+                          ['setvalues', a_vals(n + 1)], ['setvalues', []], ['setvalues', 'abc'],
+                          ['setitem', n, 7], ['setitem', -n - 1, 7], ['interp', ts0 + 1, 'N', True],
+                          ['interp', rng.choice(finer), 'X', True], ['interp', 0, 'N', True],
+                          ['interp', 7 * ts0, 'N', True], ['holes', True], ['to_discontinuous'],
+                          ['cull', 60 if ts0 < 60 else 7, True]])
+        ops = [bad, ['read', rng.random() < 0.5], rand_op(), rand_op()]
+    elif t < 0.64:
+        tag = 'twice'
+        q = rng.random()
+        if cont and q < 0.5:
+            a, b = rng.choice(finer), rng.choice(finer)
+            ca, cb = rng.choice(['N', '0', '1']), rng.choice(['N', '0', '1'])
+            ops = [['interp', a, ca, False], ['interp', b, cb, False], ['interp', a, ca, False]]
+        elif q < 0.75:
+            a, b = a_ts(1), a_ts(1)
+            ops = [['cull', a, False], ['cull', b, False], ['read', True], ['cull', a, False]]
+        else:
+            ops = [['validate', False], ['holes', False], ['validate', False], ['validate', True], ['holes', False],
+                   ['validate', False]]
+    elif t < 0.78:
+        tag = 'set_then_derive'
+        ops = [['setvalues', a_vals(n)], rng.choice([['validate', False], ['holes', False], ['cull', a_ts(1), False],
+                                                      ['interp', rng.choice(finer), 'N', False]]),
+               ['setitem', rng.randrange(-n, n), 999], rng.choice([['validate', True], ['cull', a_ts(1), True],
+                                                                   ['interp', rng.choice(finer), 'N', True]]),
+               ['read', True]]
+    else:
+        tag = 'random'
+        ops = []
+    ops = ops + [rand_op() for _ in range(rng.randrange(1, 5) if tag != 'random' else rng.randrange(3, 9))]
+    return ops[:10], tag
+
+
+# --- histories of the three keyed classes (oracle only) ----------------------------------------
+
+KEY_CLASSES = {'validate_daily': 'DailyCollection', 'validate_monthly': 'MonthlyCollection',
+               'validate_mph': 'MonthlyPerHourCollection'}
+
+
+def _gen_key_history(ctx, count):
+    rng = ctx.rng
+    out = []
+    for _ in range(count):
+        kind = rng.choice(['daily', 'monthly', 'mph'])
+        c = _gen_keys(ctx, kind, 1)[0]
+        if c['tag'] != 'ok' or (kind == 'daily' and not c['ap'][7] and any(k == 366 for k, _ in c['data'])):
+            continue
+        n = len(c['data'])
+        ops = []
+        for _ in range(rng.randrange(2, 7)):
+            r = rng.random()
+            if r < 0.4:
+                ops.append(['validate', rng.random() < 0.6])
+            elif r < 0.55:
+                ops.append(['setvalues', [100 + i for i in range(n + rng.choice([0, 0, 0, 1, -1]))]])
+            elif r < 0.65:
+                ops.append(['setitem', rng.choice([0, -1, n, -n - 1]), 777])
+            elif r < 0.75:
+                ops.append(['setvalues', rng.choice(['abc', []])])
+            else:
+                ops.append([rng.choice(['to_immutable', 'to_mutable', 'duplicate', 'dict'])])
+        ops.append(['validate', False])
+        out.append({'op': {'daily': 'validate_daily', 'monthly': 'validate_monthly', 'mph': 'validate_mph'}[kind],
+                    'ap': c['ap'], 'data': c['data'], 'flag': rng.random() < 0.4, 'imm': rng.random() < 0.25,
+                    'ops': ops})
+    return out
+
+
+def _check_key_history(inp):
+    """History on a Daily / Monthly / MonthlyPerHour collection: validation must hold for the
+    (key, value) pairs established so far, wherever the validated flag came from; a refused
+    assignment changes nothing."""
+    import ladybug.datacollection as dc
+    op = inp['op']
+    cls = getattr(dc, KEY_CLASSES[op])
+    keys = [tuple(k) if isinstance(k, list) else k for k, _ in inp['data']]
+    vals = [float(v) for _, v in inp['data']]
+    sig0 = {'class': KEY_CLASSES[op], 'flag': bool(inp.get('flag')), 'imm': bool(inp.get('imm'))}
+    try:
+        cur = cls(_header(inp['ap']), vals, keys)
+        if inp.get('flag'):
+            d = cur.to_dict()
+            d['validated_a_period'] = True
+            cur = cls.from_dict(d)
+        if inp.get('imm'):
+            cur = cur.to_immutable()
+    except Exception as e:
+        return {'required': 'collection is built', 'observed': '%s: %s' % (type(e).__name__, e),
+                'sig': dict(sig0, fail='build')}
+    P = {'ap': _ap_fields(cur.header.analysis_period), 'keys': list(keys), 'vals': list(vals)}
+    prev = 'init'
+    for k, o in enumerate(inp['ops']):
+        name = o[0]
+        sig = dict(sig0, step=name, prev=prev)
+        where = 'step %d %s after %s' % (k, name, [x[0] for x in inp['ops'][:k]])
+        res = None
+        try:
+            if name == 'validate':
+                res = cur.validate_analysis_period()
+            elif name == 'setvalues':
+                cur.values = o[1] if isinstance(o[1], str) else [float(x) for x in o[1]]
+            elif name == 'setitem':
+                cur[o[1]] = float(o[2])
+            elif name == 'dict':
+                res = type(cur).from_dict(cur.to_dict())
+            else:
+                res = getattr(cur, name)()
+            refused = False
+        except Exception as e:
+            refused, err = True, '%s: %s' % (type(e).__name__, e)
+        n = len(P['keys'])
+        if name == 'validate':
+            ksig = dict(sig, header=_header_kind(P['ap']), n='one' if n == 1 else 'many', same_month=P['ap'][0] == P['ap'][3],
+                        window='full' if (P['ap'][2], P['ap'][5]) == (0, 23) else 'partial')
+            f = _pred_validated_keys(op, res, list(zip(P['keys'], P['vals'])), ksig) if not refused else \
+                (None if len(set(P['keys'])) != n else
+                 {'required': 'validated collection', 'observed': err, 'sig': dict(sig, fail='raise')})
+            if f:
+                s = dict(f['sig'], op=op)
+                from harness import core
+                if not any(core.matches(s, kf) for kf in core.load_known(PROP)):
+                    return {'required': '%s: %s' % (where, f['required']), 'observed': f['observed'],
+                            'sig': dict(sig, fail='validate:' + str(f['sig'].get('fail')))}
+            if not refused and o[1]:
+                cur = res
+                P = {'ap': _ap_fields(res.header.analysis_period), 'keys': list(res.datetimes), 'vals': list(res.values)}
+        elif name == 'setvalues' and not refused:
+            if isinstance(o[1], str) or len(o[1]) != n:
+                return {'required': where + ': values that do not fit the keys are refused', 'observed': 'accepted',
+                        'sig': dict(sig, fail='accepted')}
+            P = dict(P, vals=[float(x) for x in o[1]])
+        elif name == 'setitem' and not refused:
+            v = list(P['vals'])
+            v[o[1]] = float(o[2])
+            P = dict(P, vals=v)
+        elif not refused and res is not None:
+            cur = res
+        got = (_ap_fields(cur.header.analysis_period), list(cur.datetimes), list(cur.values))
+        if got != (P['ap'], P['keys'], P['vals']):
+            return {'required': '%s: the collection shows the state established so far%s' % (
+                        where, ' (the refused op changed nothing)' if refused else ''),
+                    'observed': str(got)[:300], 'sig': dict(sig, fail='state', refused=refused)}
+        prev = name
+    return None
+
+
+# --- process-order independence: slices of the oracle stream in fresh interpreters --------------
+
+
+def _order_worker_main():
+    """Entry point of a fresh interpreter: evaluates the cases read from stdin in the given order
+    and prints the failures (index, op, result) as JSON."""
+    import json
+    import sys
+    from harness import core
+    sys.path.insert(0, core.REPO)
+    cases = json.load(sys.stdin)['cases']
+    fails = []
+    with contextlib.redirect_stdout(io.StringIO()):
+        for i, (op, inp) in enumerate(cases):
+            try:
+                res = check_case(op, inp)
+            except Exception as e:
+                res = {'required': 'oracle evaluates', 'observed': 'exception %s: %s' % (type(e).__name__, e),
+                       'sig': {'exception': type(e).__name__}}
+            if res:
+                fails.append([i, op, res])
+    sys.stdout.write(json.dumps(fails, default=str))
+
+
+def _order_spawn(cases):
+    import json
+    import os
+    import subprocess
+    import sys
+    from harness import core
+    env = dict(os.environ, LADYBUG_REPO=core.REPO, PYTHONPATH=core.ROOT + os.pathsep + os.environ.get('PYTHONPATH', ''))
+    p = subprocess.Popen([sys.executable, '-c', 'import harness.props.c13 as m; m._order_worker_main()'],
+                         stdin=subprocess.PIPE, stdout=subprocess.PIPE, stderr=subprocess.PIPE, cwd=core.ROOT, env=env)
+    p.stdin.write(json.dumps({'cases': cases}, default=str).encode())
+    p.stdin.close()
+    return p
+
+
+def _order_collect(p):
+    import json
+    out = p.stdout.read()
+    err = p.stderr.read()
+    p.wait()
+    if p.returncode != 0:
+        return [[-1, 'worker', {'required': 'worker process finishes', 'observed': err.decode()[-400:],
+                                'sig': {'fail': 'worker'}}]]
+    return json.loads(out.decode() or '[]')
+
+
+def _order_unknown(fails):
+    """Failures of a worker that are not recorded findings."""
+    from harness import core
+    known = core.load_known(PROP)
+    return [f for f in fails if not any(core.matches(dict(f[2].get('sig') or {}, op=f[1]), k) for k in known)]
+
+
+def _order_run(cases):
+    return _order_unknown(_order_collect(_order_spawn(cases)))
+
+
+def _check_order(inp):
+    """Replay of an order-dependent failure: the listed cases are evaluated in this order in ONE fresh
+    interpreter; the last one must pass (as it does when it is evaluated first)."""
+    fails = _order_run(inp['order'])
+    if not fails:
+        return None
+    i, op, res = fails[-1]
+    return {'required': 'case %d (%s) passes after the %d cases before it as it does in a fresh process: %s' % (
+                i, op, i, res.get('required')),
+            'observed': res.get('observed'), 'sig': dict(res.get('sig') or {}, order=True, inner_op=op)}
+
+
+def _rarity(case):
+    """Sort key that puts the rare classes first: leap, wrapping, sub-hourly, refused first step."""
+    op, inp = case
+    ap = inp.get('ap') or [1, 1, 0, 12, 31, 23, 1, False]
+    wrap = (ap[3], ap[4]) < (ap[0], ap[1])
+    first_bad = bool(inp.get('ops')) and inp['ops'][0][0] in ('convcull', 'setvalues', 'setitem', 'interp')
+    return (not ap[7], not wrap, ap[6] == 1, not first_bad)
+
+
+def _order_pool(ctx):
+    """The slice of the oracle stream that is run in fresh interpreters: the whole fixed corpus and
+    a few generated cases of every op, histories included."""
+    k = 25 if (ctx.quick and not ctx.searching) else 120
+    pool = [(op, c) for op, c in _corpus()]
+    pool += [('validate_hourly', {'ap': c['ap'], 'dl': c['dl'], 'data': c['data']})
+             for c in _gen_validate_hourly(ctx, 2 * k) if c['tag'] in ('ok', 'duplicate')]
+    for kind, op in (('daily', 'validate_daily'), ('monthly', 'validate_monthly'), ('mph', 'validate_mph')):
+        pool += [(op, {'ap': c['ap'], 'data': c['data']}) for c in _gen_keys(ctx, kind, k)
+                 if c['tag'] in ('ok', 'duplicate') and not (kind == 'daily' and not c['ap'][7] and
+                                                             any(x == 366 for x, _ in c['data']))]
+    pool += [('holes', {'ap': c['ap'], 'data': c['data'], 'via': 'flag'}) for c in _gen_holes(ctx, k)
+             if c['tag'] not in ('not_validated', 'window')]
+    pool += [('interp', {'ap': c['ap'], 'ts': c['ts'], 'kind': c['kind'], 'cum': c['cum'], 'vals': c['vals']})
+             for c in _gen_interp(ctx, k) if c['tag'] == 'ok']
+    pool += [('cull', {'ap': c['ap'], 'dl': c['dl'], 'data': c['data'], 'ts': c['ts'], 'flavour': c['flavour']})
+             for c in _gen_cull(ctx, k) if c['tag'] == 'ok']
+    pool += [('history', c) for c in _gen_history(ctx, 3 * k)]
+    pool += [('key_history', c) for c in _gen_key_history(ctx, k)]
+    return pool
+
+
+def _order_stage(ctx, pool):
+    """Run the pool of (op, input) cases in 2 (quick) / 4 (thorough) fresh interpreters, each in a
+    different order; every case that fails there and is not a recorded finding is reported: as a
+    plain failure when it also fails alone in a fresh interpreter, else with the order that makes
+    it fail (shortened by bisection)."""
+    rng = ctx.rng
+    orders = []
+    a = sorted(range(len(pool)), key=lambda i: _rarity(pool[i]))
+    orders.append(('rare_first', a))
+    b = list(range(len(pool)))
+    rng.shuffle(b)
+    orders.append(('shuffled', b))
+    if not ctx.quick or ctx.searching:
+        orders.append(('rare_last', a[::-1]))
+        c = list(range(len(pool)))
+        rng.shuffle(c)
+        orders.append(('shuffled2', c))
+    procs = [(name, idx, _order_spawn([pool[i] for i in idx])) for name, idx in orders]
+    reported = set()
+    for name, idx, p in procs:
+        fails = _order_unknown(_order_collect(p))
+        ctx.count('order_cases:' + name, len(idx))
+        ctx.count('order_run:' + name)
+        for pos, op, res in fails[:3]:
+            if pos < 0:
+                ctx.fail('order', {'order': []}, res.get('required'), res.get('observed'), res.get('sig'))
+                continue
+            case = pool[idx[pos]]
+            key = idx[pos]
+            if key in reported:
+                continue
+            reported.add(key)
+            alone = _order_run([case])
+            if alone:
+                r = alone[0][2]
+                ctx.fail(case[0], case[1], r.get('required'), r.get('observed'), r.get('sig'))
+                continue
+            prefix = [pool[i] for i in idx[:pos]]
+            lo, hi = 0, len(prefix)              # smallest prefix length that still makes the case fail
+            while lo < hi:
+                mid = (lo + hi) // 2
+                if _order_run(prefix[:mid] + [case]):
+                    hi = mid
+                else:
+                    lo = mid + 1
+            short = prefix[:lo]
+            if short and _order_run([short[-1], case]):
+                short = [short[-1]]
+            order = short + [case]
+            r = _check_order({'order': order}) or {'required': res.get('required'), 'observed': res.get('observed'),
+                                                   'sig': dict(res.get('sig') or {}, order=True, inner_op=op)}
+            ctx.fail('order', {'order': order, 'run': name}, r.get('required'), r.get('observed'), r.get('sig'))
+
+
 def check_case(op, inp):
     if op == 'validate_hourly':
         return _check_validate_hourly(inp)
@@ -955,6 +1951,12 @@ def check_case(op, inp):
         return _check_interp(inp)
     if op == 'cull':
         return _check_cull(inp)
+    if op == 'history':
+        return _check_history(inp)
+    if op == 'key_history':
+        return _check_key_history(inp)
+    if op == 'order':
+        return _check_order(inp)
     raise ValueError('unknown op ' + op)
 
 
@@ -1023,7 +2025,48 @@ def _corpus():
                     'vals': [10 * (k % 3) for k in range(24)], 'tag': 'ok'}),
         ('interp', {'ap': [1, 1, 0, 1, 1, 23, 1, False], 'ts': 3, 'kind': 'averaged', 'cum': None,
                     'vals': [3600 * (k % 7) for k in range(24)], 'tag': 'ok'}),
+    ] + _corpus_histories()
+
+
+def _corpus_histories():
+    """Fixed histories, one per class of order / failure-path / slot dependence."""
+    d621 = 171 * 1440
+    unsorted = [[d621 + 1440 + 600, 22], [d621 + 750, 21.5], [d621 + 540, 19], [d621 - 1440 + 480, 18], [d621 + 570, 19.5]]
+    day = [6, 21, 0, 6, 21, 23, 1, False]
+    base = {'cls': 'disc', 'imm': False, 'ap': day, 'flag': False, 'kind': 'point', 'data': unsorted, 'tag': 'corpus'}
+    cont6 = {'cls': 'cont', 'imm': False, 'ap': [6, 21, 0, 6, 21, 23, 6, False], 'flag': False, 'kind': 'point',
+             'data': [[d621 + 10 * k, k + 1] for k in range(144)], 'tag': 'corpus'}
+    leap2 = {'cls': 'cont', 'imm': False, 'ap': [2, 28, 0, 3, 1, 23, 2, True], 'flag': False, 'kind': 'cumulative',
+             'data': [[58 * 1440 + 30 * k, (k * 7) % 13] for k in range(144)], 'tag': 'corpus'}
+    wrap = {'cls': 'disc', 'imm': False, 'ap': [12, 31, 0, 1, 1, 23, 1, False], 'flag': False, 'kind': 'point',
+            'data': [[120, 40], [364 * 1440 + 600, 10], [180, 50]], 'tag': 'corpus'}
+    hs = [
+        # an op that sets the validated flag without sorting, then validation (and hole filling)
+        dict(base, ops=[['cull', 1, True], ['validate', True], ['read', True], ['holes', False]]),
+        dict(base, flag=True, ops=[['validate', True], ['read', True], ['holes', False]]),
+        dict(base, ops=[['to_immutable'], ['cull', 2, True], ['dict'], ['validate', False], ['validate', True]]),
+        dict(base, ops=[['validate', False], ['validate', True], ['validate', True], ['holes', True], ['read', True]]),
+        # refused in-place ops, then ordinary ones
+        dict(base, ops=[['convcull', 7], ['read', True], ['setvalues', [1, 2]], ['setitem', 5, 1], ['validate', True],
+                        ['convcull', 1], ['read', True]]),
+        dict(base, data=[[d621 + 510, 1], [d621 + 570, 2]], ops=[['cull', 1, True], ['convcull', 1], ['read', True],
+                                                                  ['validate', False], ['setvalues', []]]),
+        # the datetimes slot of a continuous collection around an in-place cull
+        dict(cont6, ops=[['read', True], ['convcull', 4], ['read', True], ['cull', 2, False], ['validate', False],
+                         ['to_discontinuous'], ['validate', True]]),
+        dict(cont6, ops=[['convcull', 2], ['read', True], ['interp', 4, 'N', False], ['interp', 6, '1', True],
+                         ['read', True], ['convcull', 3], ['read', True]]),
+        dict(cont6, imm=True, ops=[['convcull', 2], ['setitem', 0, 5], ['read', True], ['cull', 4, False],
+                                   ['interp', 12, 'N', False], ['to_mutable'], ['convcull', 1], ['read', True]]),
+        # the same object asked for several refinements, leap year, cumulative data
+        dict(leap2, ops=[['interp', 4, 'N', False], ['interp', 6, '0', False], ['interp', 4, 'N', False],
+                         ['interp', 7, 'N', False], ['interp', 4, 'X', False], ['setitem', -1, 99],
+                         ['interp', 4, 'N', True], ['cull', 2, True], ['read', True]]),
+        # wrapping period: validate, fill, cull
+        dict(wrap, ops=[['validate', True], ['holes', True], ['read', True], ['cull', 1, False], ['interp', 2, 'N', True],
+                        ['convcull', 1], ['read', True]]),
     ]
+    return [('history', h) for h in hs]
 
 
 def _oracle_cases(ctx):
@@ -1031,20 +2074,20 @@ def _oracle_cases(ctx):
     big = ctx.searching or not ctx.quick
     for op, c in _corpus():
         yield op, c
-    for c in _gen_validate_hourly(ctx, 8000 if big else 1300):
+    for c in _gen_validate_hourly(ctx, 8000 if big else 1000):
         if c['tag'] in ('empty',):
             continue
         if c['tag'] == 'leap_mix':
             continue                       # outside the quantifier (header with the wrong leap flag)
         yield 'validate_hourly', {'ap': c['ap'], 'dl': c['dl'], 'data': c['data']}
     for kind, op in (('daily', 'validate_daily'), ('monthly', 'validate_monthly'), ('mph', 'validate_mph')):
-        for c in _gen_keys(ctx, kind, 3000 if big else 500):
+        for c in _gen_keys(ctx, kind, 3000 if big else 400):
             if c['tag'] in ('empty', 'bad_key'):
                 continue
             if kind == 'daily' and not c['ap'][7] and any(k == 366 for k, _ in c['data']):
                 continue                   # header with the wrong leap flag: outside the quantifier
             yield op, {'ap': c['ap'], 'data': c['data']}
-    for c in _gen_holes(ctx, 2000 if big else 400):
+    for c in _gen_holes(ctx, 2000 if big else 300):
         if c['tag'] in ('not_validated', 'window'):
             continue
         via = 'validate' if rng.random() < 0.4 else 'flag'
@@ -1071,6 +2114,13 @@ def _oracle_cases(ctx):
         if c['tag'] != 'ok':
             continue
         yield 'cull', {'ap': c['ap'], 'dl': c['dl'], 'data': c['data'], 'ts': c['ts'], 'flavour': c['flavour']}
+    for c in _gen_history(ctx, 3000 if big else 450):
+        ctx.count('oracle_hist:template:%s' % c.pop('tag', '?'))
+        ctx.count('oracle_hist:init:%s%s%s' % (c['cls'], ':imm' if c['imm'] else '', ':flag' if c['flag'] else ''))
+        yield 'history', c
+    for c in _gen_key_history(ctx, 1500 if big else 120):
+        ctx.count('oracle_key_hist:%s' % c['op'])
+        yield 'key_history', c
 
 
 def oracle(ctx):
@@ -1103,6 +2153,10 @@ def oracle(ctx):
                 ctx.fail(op, inp, res.get('required'), res.get('observed'), res.get('sig'))
             elif ctx.evaluations % 997 == 1:
                 ctx.sample({'oracle': op, 'input': inp}, limit=12)
+        _tick(ctx, 'oracle stream done')
+        if len(ctx.failures) < 200:
+            _order_stage(ctx, _order_pool(ctx))
+        _tick(ctx, 'order stage done')
 
 
 LEVEL_TEXT = ('Machine-checked Lean 4 theorems over an executable model of the validation, hole-filling and '
